@@ -1,13 +1,16 @@
 """C13 - dropping removes exactly what was named, for every kind of read, for good (black box).
 
-Bounded exhaustive enumeration (odometer, no randomness) of histories
-    layout x drop x pre-read x continuation x restart
-on a real ts-server (lib/blackbox.py). DROP SERIES histories share one database (a measurement pair per history),
-DROP MEASUREMENT / RETENTION POLICY / DATABASE histories get a database each, so that hundreds of histories share
-one server start; flushes / compaction waits / kill -9 are global and therefore batched: the histories are
-right-aligned on the server's barrier string (see c13_model.segments) so that a foreign flush never hits a
-history whose memtable is non-empty.  Oracle: reference map with deletion (c13_model.Ref); every read shape must
-equal the reference at every checkpoint (after the acknowledged drop, after the continuation, after restart).
+Bounded exhaustive enumeration (odometer, no randomness) of two families of histories on a real ts-server
+(lib/blackbox.py):
+    one drop :  layout x drop x pre-read x continuation x restart
+    two drops:  layout x drop1 x re-creation step x drop2 x flush between x tail x restart   (c13_model, "two")
+One-drop DROP SERIES histories share one database (a measurement pair per history), every other history has a database
+of its own, so that hundreds of histories share one server start; flushes / compaction waits / kill -9 are global and
+therefore batched: the histories are right-aligned on the server's barrier string (see c13_model.segments) so that a
+foreign flush never hits a history whose memtable is non-empty. The two-drop histories run on servers of their own
+(one driver process per server). Oracle: reference map with deletion (c13_model.Ref); every read shape must equal the
+reference at every checkpoint (after each acknowledged drop, after the re-creation step, after the continuation, after
+restart, after the points written since the drop were sent once more after the restart).
 """
 import concurrent.futures as cf
 import glob, hashlib, json, multiprocessing, os, shutil, sys, threading, time
@@ -18,19 +21,30 @@ import c13_model as M
 
 CID = "C13"
 LEVEL = "exploration"
-RULE = ("odometer (no randomness) over layout {memory, flushed, flushed + late out-of-order file, mixed files/memtable (thorough), "
-        "compacted (thorough, second server with full compaction, two shared waits)} x drop {DROP SERIES with =, !=, =~, !~, AND, OR "
-        "predicates and without WHERE, selecting none / some / all of 3 series (8 quick, 13 thorough); DROP MEASUREMENT; DROP "
-        "RETENTION POLICY; DROP DATABASE} x pre-read {no, yes} x continuation {none, rewrite same series / re-create + write, flush, "
-        "rewrite + flush, rewrite + flush + compaction (thorough), kill -9 right after the acknowledgement} x restart {no, kill -9 (+ a "
-        "second, clean restart in thorough)}, plus one cross-database scenario; every history runs on the real ts-server; at every "
-        "checkpoint (before drop if pre-read, after drop, after rewrite, after flush, after compaction, after each restart) every read "
-        "shape (plain; host =, !=, =~, !~ for two values; region =; field filter; tag+field filter; group by tag; count group by "
-        "time(1m) with bounds; count group by tag; count; count with /*+ exact_statistic_query */; show series; show tag keys; show "
-        "tag values with key = host) on the target measurement and 4 shapes on each bystander (other measurement, other retention "
-        "policy, other database) are compared with the reference map with deletion. evaluations = (history, checkpoint, read shape) "
-        "comparisons; distinct_nontrivial = distinct (history, read shape) pairs of histories whose drop removed at least one series "
-        "while other series / measurements had to stay")
+RULE = ("odometer (no randomness) over two families of histories, every history executed on the real ts-server. ONE DROP: layout {memory, "
+        "flushed, flushed + late out-of-order file, mixed files/memtable (thorough), compacted (thorough, second server with full "
+        "compaction, two shared waits)} x drop {DROP SERIES with =, !=, =~, !~, AND, OR predicates and without WHERE, selecting none / "
+        "some / all of 3 series (8 quick, 13 thorough); DROP MEASUREMENT; DROP RETENTION POLICY; DROP DATABASE} x pre-read {no, yes} x "
+        "continuation {none, rewrite same series / re-create + write, flush, rewrite + flush, rewrite + flush + compaction (thorough), "
+        "kill -9 right after the acknowledgement} x restart {no, kill -9 (+ a second, clean restart in thorough)}, plus one "
+        "cross-database scenario. TWO DROPS (target measurement under retention policy rp2 of a database of its own, the same "
+        "measurement name under the default policy, a bystander measurement, a bystander database): layout {memory, flushed, reopened = "
+        "flushed and the server killed and started again before the first drop; thorough adds late, mixed, prior = an unrelated series "
+        "dropped earlier} x drop1 {DROP SERIES WHERE host = 'a', DROP SERIES without WHERE, DROP MEASUREMENT, DROP RETENTION POLICY, DROP "
+        "DATABASE} x re-creation step {nothing; the same series again; new series with a smaller tag set - both re-create the dropped "
+        "database / policy under the same name first, the measurement is re-created by the write} x drop2 {DROP SERIES WHERE host = x "
+        "selecting a strict subset of what is there, DROP SERIES without WHERE, DROP MEASUREMENT, DROP RETENTION POLICY, DROP DATABASE} "
+        "pruned by one rule: drop2 is enumerated iff on the reference the object it names exists at that point and the statement "
+        "removes at least one series (the subset form must also leave one) - 61 of 75 statement combinations; x tail {flush; write again "
+        "(re-creating what drop2 removed) + flush; thorough adds: none, flush between re-creation and drop2} x kill -9 restart (+ a "
+        "clean one in thorough), then the points written after the drops are sent once more. At every checkpoint (before drop if "
+        "pre-read, after each drop, after the re-creation step / rewrite, after flush, after compaction, after each restart, after the "
+        "repeated write) every read shape (plain; host =, !=, =~, !~ for two values; region =; field filter; tag+field filter; group "
+        "by tag; count group by time(1m) with bounds; count group by tag; count; count with /*+ exact_statistic_query */; show "
+        "series; show tag keys; show tag values with key = host) on the target measurement and 4 shapes on each bystander (other "
+        "measurement, other retention policy, other database) are compared with the reference map with deletion. evaluations = "
+        "(history, checkpoint, read shape) comparisons; distinct_nontrivial = distinct (history, read shape) pairs of histories whose "
+        "drops removed at least one series while other series / measurements had to stay")
 ASSUMPTIONS = [
     "single node (ts-server), one partition, default shard duration; all timestamps in one shard group",
     "a read that fails with 'not found' / 'is being delete' for a dropped database / retention policy / measurement counts as an empty answer",
@@ -39,11 +53,22 @@ ASSUMPTIONS = [
     "reference is returned; a time-out is a tool error (or, in a history that already has a violation, the end of that history); no "
     "barrier between the acknowledgement of a drop and the reads that follow it",
     "memtable auto-flush is switched off (write-cold-duration = 1h) and compaction / out-of-order merge are switched off on the main "
-    "server so that the layout of a history is what the history says; the compaction server keeps them on",
-    "DROP SERIES histories share one database (measurement names per history) and are driven concurrently in batches between the global "
-    "barriers (flush, compaction wait, kill -9); the statement is about sequential histories, so the delete index of the shared database "
-    "is created by one sequential DROP SERIES before the batches start",
-    "rewrites after the drop use new timestamps (overwriting a surviving point across a flush is C09's subject)",
+    "servers so that the layout of a history is what the history says; the compaction server keeps them on",
+    "one-drop DROP SERIES histories share one database (measurement names per history) and are driven concurrently in batches between the "
+    "global barriers (flush, compaction wait, kill -9); the statement is about sequential histories, so the delete index of the shared "
+    "database is created by one sequential DROP SERIES before the batches start; CREATE / DROP DATABASE statements of different "
+    "histories are issued one at a time (concurrent database DDL crashes the server in getRetentionPolicyCount - not this property)",
+    "rewrites after the drop use new timestamps (overwriting a surviving point across a flush is C09's subject); the repeated write "
+    "after the restart sends identical points and is compared on the row-returning shapes and the listings only",
+    "a re-created retention policy / database is a fresh container: nothing of the old one may be returned again (strict, the "
+    "statement's 'never reappears'), the second drop inside it must remove exactly what it names (strict, first sentence of the "
+    "statement applied to that drop); rows written into it that never become visible are a tool error, not a verdict (the statement "
+    "promises 'as writes to a fresh one' for series and measurements only)",
+    "two-drop histories keep the target measurement under two retention policies: a listing FROM the measurement may answer with the "
+    "series under the named (default) policy or with those under every policy of the database (the statement does not define the "
+    "span of a listing); dropped series are in neither",
+    "a drop (or re-creation) statement refused with 'is being delete' / 'retention policy not found' while the store still carries out "
+    "the previous drop of the same database is not acknowledged and is repeated until it is",
     "the crash part of DROP MEASUREMENT (crash images inside the drop) is explored in-process by C01, not here",
 ]
 
@@ -51,20 +76,25 @@ CLAIMED = True
 MANIFEST = dict(
     level=LEVEL,
     engine="blackbox",
-    technique="bounded exhaustive enumeration of drop histories (layout x drop statement x pre-read x continuation x restart) on the real "
-              "server over HTTP, with a reference map with deletion as differential oracle for 21 read shapes per checkpoint",
-    text="Every history of the bounded alphabet (data in memory / flushed / out-of-order / mixed / compacted; DROP SERIES with each predicate "
-         "operator selecting none, some or all series, DROP MEASUREMENT, DROP RETENTION POLICY, DROP DATABASE; rewrite, re-create, "
-         "flush, compaction, kill -9 + restart, kill -9 right after the acknowledgement) is executed on a real ts-server; after the "
-         "acknowledged drop, after the continuation and after each restart every read shape must equal the reference map with deletion, "
+    technique="bounded exhaustive enumeration of drop histories (one drop: layout x drop statement x pre-read x continuation x restart; "
+              "two drops: layout x drop1 x re-creation step x drop2 x tail x restart, pruned by a stated rule) on the real server over "
+              "HTTP, with a reference map with deletion as differential oracle for 21 read shapes per checkpoint",
+    text="Every history of the bounded alphabet (data in memory / flushed / out-of-order / mixed / compacted / re-opened; DROP SERIES with "
+         "each predicate operator selecting none, some or all series, DROP MEASUREMENT, DROP RETENTION POLICY, DROP DATABASE; rewrite, "
+         "re-create, flush, compaction, kill -9 + restart, kill -9 right after the acknowledgement; and every admissible sequence of two "
+         "drop statements with a re-creation step - nothing, the same series, new series in the re-created measurement / policy / "
+         "database - in between and a rewrite after) is executed on a real ts-server; after each acknowledged drop, after the "
+         "re-creation, after the continuation and after each restart every read shape must equal the reference map with deletion, "
          "bystander measurements / retention policies / databases included. Exhaustive within the stated alphabet.",
     note="Trusts: the HTTP front end and JSON rendering (shared by all shapes), the reference model, single node / single shard group, "
          "the visibility barriers (a row that never becomes visible ends as tool error, not as a verdict). Does not cover crash points "
-         "inside a drop (C01), multi-node drops, concurrent drops, time-bounded deletes, the hourly physical purge of dropped series.",
+         "inside a drop (C01), multi-node drops, concurrent drops, sequences of three or more drops, time-bounded deletes, the hourly "
+         "physical purge of dropped series.",
 )
 
 POOL = 48
 BEING_DELETED = __import__('re').compile(r'being delete', __import__('re').I)
+DROP_TRANSIENT = __import__('re').compile(r'being delete|retention policy not found', __import__('re').I)
 BARRIER_TIMEOUT = 240  # generous: on the shared build machine the whole server process was seen frozen for minutes
 COMPACT_TIMEOUT = 420
 QUIET_BEFORE_KILL = 4.0
@@ -107,7 +137,7 @@ class Run:
         self.h = h
         self.ref = M.Ref()
         self.db = M.dbname(h)
-        self.dbb = self.db + "b"
+        self.dbb = M.OTHER_DB if h.get("two") else self.db + "b"
         self.m, self.n = M.mname(h), M.nname(h)  # target measurement, untouched bystander
         self.two = bool(h.get("two"))
         # two-drop histories: the kind of the last executed drop; target under rp2 so that every statement can be either drop
@@ -116,6 +146,7 @@ class Run:
         self.key = M.hkey(h)
         self.removed = 0
         self.drops_done = []  # [(n, kind)] acknowledged drops
+        self.setup_done = False
         self.rewritten = []  # [(db, rp, rows)] written by the steps after a drop (sent once more after the restart)
         self.log = []  # executed statements (for the violation detail)
         self.offset = 0
@@ -135,11 +166,17 @@ class Driver:
         # this property (the histories are sequential; their concurrency is the harness's batching), so these two statements
         # are issued one at a time.
         self.dblock = threading.Lock()
+        self.dblock2 = threading.Lock()
+        self.other_db_created = False
 
     # ---------------------------------------------------------------- low level
     def ddl(self, r, q, db=None, must=True, retry=None):
         t0 = time.time()
         retry = must if retry is None else retry
+        # a statement issued while the store is still carrying out an earlier drop in the same database is refused for a
+        # moment: "... is being delete", or (DROP MEASUREMENT walking the policies of the database while a marked policy is
+        # finally removed) "retention policy not found: <the dropped policy>". Not acknowledged, so it is repeated.
+        transient = BEING_DELETED if must else DROP_TRANSIENT
         serial = q.lower().startswith(("create database", "drop database"))
         while True:
             if serial:
@@ -155,7 +192,7 @@ class Driver:
                 err = res.get("error")
             # re-creating a container whose two-phase drop is still being carried out by the store is refused
             # for a moment ("is being delete"): retried, it is not a wrong answer
-            if err and retry and BEING_DELETED.search(err) and time.time() - t0 < BARRIER_TIMEOUT:
+            if err and retry and transient.search(err) and time.time() - t0 < BARRIER_TIMEOUT:
                 self.rep.count("statement_retries_while_being_deleted", 1)
                 time.sleep(0.05)
                 continue
@@ -294,8 +331,14 @@ class Driver:
         if r.dk == "rp" or r.two:
             self.ddl(r, 'create retention policy "%s" on "%s" duration 0s replication 1' % (M.RP2, r.db))
             r.ref.create_rp(r.db, M.RP2)
-        if r.dk == "database" or (r.two and M.uses_otherdb(r.h)):
+        if r.dk == "database":
             self.ddl(r, 'create database "%s"' % r.dbb)
+            r.ref.create_db(r.dbb)
+        if r.two and M.uses_otherdb(r.h):
+            with self.dblock2:
+                if not self.other_db_created:
+                    self.ddl(None, 'create database "%s"' % r.dbb)
+                    self.other_db_created = True
             r.ref.create_db(r.dbb)
 
     def do_load(self, r, tis):
@@ -620,7 +663,9 @@ class Driver:
     def _run_token(self, r, tok):
         if True:
             if tok[0] == "SETUP":
-                self.do_setup(r)
+                if not r.setup_done:
+                    self.do_setup(r)
+                    r.setup_done = True
             elif tok[0] == "W":
                 self.do_load(r, tok[1])
             elif tok[0] == "CHECK":
@@ -783,6 +828,10 @@ class Driver:
 
     def execute_histories(self, S, disable_compaction):
         """S = barrier string of the server; every run is aligned on it (rightmost match; suffix if it ends dirty)."""
+        # the databases / retention policies of all histories are created before anything is dropped (see dblock: CREATE
+        # DATABASE must not run while the catalogue removes a dropped database; only re-creations remain inside the phases)
+        tlog("C13 server %s setup: %d histories" % (self.srv.name, len(self.runs)))
+        self.pool(lambda r: self.run_segment(r, [("SETUP",)]), self.runs)
         self.reopen_phase()
         if any(r.db == M.SHARED_DB for r in self.runs):
             self.prepare()
